@@ -99,14 +99,45 @@ def torn_frames():
     return None
 
 
+def lock_released_mid_frame():
+    """thread A sends one large uncompressed frame and is stopped as soon as a write() call of it has returned (on the
+    repaired tree: after the whole frame); thread B sends a small frame; A resumes"""
+    ws, sock, gen = connected(False)
+    gate = sched.Gate()
+    session = ws.state.session
+    orig_write = session.write
+
+    def write(data, *a, **kw):
+        r = orig_write(data, *a, **kw)
+        if threading.current_thread().name == 'A':
+            gate.hit()
+        return r
+    session.write = write
+    big = bytes((i * 17) % 256 for i in range(70000))
+    a = sched.run_thread(lambda: ws.send_binary(big), 'A')
+    gate.reached.wait(2)
+    b = sched.run_thread(lambda: ws.send_binary(b'small'), 'B')
+    b.join(2)
+    gate.go.set()
+    a.join(2)
+    b.join(2)
+    ds = ref.decode_all(b''.join(sock.out[1:]))
+    gen.close()
+    if any(d is None for d in ds) or sorted(d['payload'] for d in ds) != sorted([big, b'small']):
+        return 'the byte stream is not the two whole frames: writes of %r bytes, decoded payload sizes %r' % (
+            [len(w) for w in sock.out[1:]], [None if d is None else d['plen'] for d in ds])
+    return None
+
+
 def replay(obligation, extra):
     for name, fn in (('thread A deflates m1 and is interrupted before its frame is written; thread B deflates and writes m2; A resumes (context takeover)', compress_order_vs_wire_order),
                      ('thread A has deflated m1 and is interrupted on entry to session.write; thread B deflates and writes m2; A resumes (context takeover)', lambda: compress_order_vs_wire_order('before-write')),
-                     ('sendall split in two steps, two threads each sending two messages', torn_frames)):
+                     ('sendall split in two steps, two threads each sending two messages', torn_frames),
+                     ('thread A sends a 70 000-byte frame and is stopped when a write() call of it returns; thread B sends a small frame; A resumes', lock_released_mid_frame)):
         err = fn()
         if err:
             return dict(found=True, input='schedule: ' + name, expected='whole frames, each thread in order, every message decodable by the peer in wire order', observed=err)
-    return dict(found=False, tried='3 forced schedules (compress/write order under context takeover, two cut points; split sendall)')
+    return dict(found=False, tried='4 forced schedules (compress/write order under context takeover, two cut points; split sendall; stop after a write call)')
 
 
 def known_finding(kf):
